@@ -18,6 +18,7 @@ METHOD_AS_FUNC = {'all': 'numpy.all', 'any': 'numpy.any', 'sum': 'numpy.sum', 'm
 BINOPS = {ast.Add: '+', ast.Sub: '-', ast.Mult: '*', ast.Div: '/', ast.FloorDiv: '//', ast.Mod: '%', ast.Pow: '**',
           ast.LShift: '<<', ast.RShift: '>>', ast.BitAnd: '&', ast.BitOr: '|', ast.BitXor: '^', ast.MatMult: '@'}
 CMPOPS = {ast.Eq: '==', ast.NotEq: '!=', ast.Lt: '<', ast.LtE: '<=', ast.Gt: '>', ast.GtE: '>=', ast.In: 'in', ast.NotIn: 'notin', ast.Is: 'is', ast.IsNot: 'isnot'}
+KNOWN_LIBS = {'numba', 'outrank', 'numpy', 'math', 'xxhash', 'csv', 'itertools', 'pandas', 'random', 'operator', 'scipy', 'sklearn', 'json', 'os', 'heapq', 'collections', 'functools', 'statistics'}
 FLIP = {'>': '<', '>=': '<=', '<': '>', '<=': '>='}
 NEGATE = {'==': '!=', '!=': '==', '<': '>=', '<=': '>', '>': '<=', '>=': '<', 'in': 'notin', 'notin': 'in', 'is': 'isnot', 'isnot': 'is'}
 
@@ -137,7 +138,7 @@ class Canon:
             head = e
             while isinstance(head, ast.Attribute):
                 head = head.value
-            if dotted and isinstance(head, ast.Name) and head.id in self.m.imports and head.id not in self.scope.defs:
+            if dotted and isinstance(head, ast.Name) and (head.id in self.m.imports or head.id in KNOWN_LIBS) and head.id not in self.scope.defs and head.id not in self.bound:
                 return ('lib', dotted)
             return ('attr', self._t(e.value), e.attr)
         if isinstance(e, ast.UnaryOp):
